@@ -1,1 +1,139 @@
-fn main(){ println!("hi"); }
+mod check;
+mod checks;
+mod driver;
+mod framing;
+mod gen;
+mod minimise;
+mod model;
+mod ringh;
+mod rng;
+mod scenario;
+mod stack;
+mod wire;
+
+use check::{RunConfig, Tier, DEFAULT_SEED};
+
+fn usage() -> ! {
+    eprintln!("usage: dst check <Cxx> [--tier quick|thorough] [--seed N] [--runs N] [--jobs N] [--no-evidence]\n       dst replay <file>\n       dst list");
+    std::process::exit(2);
+}
+
+fn main() {
+    stack::install_panic_hook();
+    let args: Vec<String> = std::env::args().collect();
+    if args.len() < 2 {
+        usage();
+    }
+    let verif_dir = std::env::var("VERIF_DIR").unwrap_or_else(|_| "/verif".to_string());
+    match args[1].as_str() {
+        "list" => {
+            for c in checks::all() {
+                println!("{}", c.id());
+            }
+        }
+        "check" => {
+            if args.len() < 3 {
+                usage();
+            }
+            let id = args[2].clone();
+            let mut tier = match std::env::var("VERIF_TIER").ok().as_deref() {
+                Some("thorough") => Tier::Thorough,
+                _ => Tier::Quick,
+            };
+            let mut seed = std::env::var("VERIF_SEED")
+                .ok()
+                .and_then(|s| s.trim().parse::<u64>().ok())
+                .unwrap_or(DEFAULT_SEED);
+            let mut runs = None;
+            let mut jobs = std::env::var("VERIF_JOBS")
+                .ok()
+                .and_then(|s| s.parse::<usize>().ok())
+                .unwrap_or_else(|| std::thread::available_parallelism().map(|n| n.get()).unwrap_or(8).min(16));
+            let mut write_evidence = true;
+            let mut i = 3;
+            while i < args.len() {
+                match args[i].as_str() {
+                    "--tier" => {
+                        i += 1;
+                        tier = match args.get(i).map(|s| s.as_str()) {
+                            Some("quick") => Tier::Quick,
+                            Some("thorough") => Tier::Thorough,
+                            _ => usage(),
+                        };
+                    }
+                    "--seed" => {
+                        i += 1;
+                        seed = args.get(i).and_then(|s| s.parse().ok()).unwrap_or_else(|| usage());
+                    }
+                    "--runs" => {
+                        i += 1;
+                        runs = Some(args.get(i).and_then(|s| s.parse().ok()).unwrap_or_else(|| usage()));
+                    }
+                    "--jobs" => {
+                        i += 1;
+                        jobs = args.get(i).and_then(|s| s.parse().ok()).unwrap_or_else(|| usage());
+                    }
+                    "--no-evidence" => write_evidence = false,
+                    _ => usage(),
+                }
+                i += 1;
+            }
+            let chk = match checks::by_id(&id) {
+                Some(c) => c,
+                None => {
+                    eprintln!("harness error: no check for {}", id);
+                    std::process::exit(2);
+                }
+            };
+            let cfg = RunConfig {
+                tier,
+                seed,
+                jobs,
+                verif_dir,
+                runs_override: runs,
+                write_evidence,
+                minimise_budget_s: 30.0,
+            };
+            let code = check::run_check(chk.as_ref(), &cfg);
+            std::process::exit(code);
+        }
+        "scan" => {
+            let id = args.get(2).cloned().unwrap_or_else(|| usage());
+            let n: u64 = args.get(3).and_then(|s| s.parse().ok()).unwrap_or(500);
+            let chk = checks::by_id(&id).unwrap_or_else(|| usage());
+            check::scan(chk.as_ref(), DEFAULT_SEED, n, Tier::Quick);
+        }
+        "replay" => {
+            if args.len() < 3 {
+                usage();
+            }
+            let text = match std::fs::read_to_string(&args[2]) {
+                Ok(t) => t,
+                Err(e) => {
+                    eprintln!("harness error: cannot read {}: {}", args[2], e);
+                    std::process::exit(2);
+                }
+            };
+            let mut doc: serde_json::Value = match serde_json::from_str(&text) {
+                Ok(v) => v,
+                Err(e) => {
+                    eprintln!("harness error: {}", e);
+                    std::process::exit(2);
+                }
+            };
+            let id = doc["property"].as_str().unwrap_or("").to_string();
+            let chk = match checks::by_id(&id) {
+                Some(c) => c,
+                None => {
+                    eprintln!("harness error: no check for {}", id);
+                    std::process::exit(2);
+                }
+            };
+            if let Some(d) = doc.get_mut("case").and_then(|c| c.get_mut("data")).and_then(|d| d.as_object_mut()) {
+                d.insert("log".into(), serde_json::json!(true));
+            }
+            std::process::exit(check::replay(chk.as_ref(), &doc));
+        }
+        _ => usage(),
+    }
+}
